@@ -22,6 +22,25 @@ pub fn first_line_hazard(_args: &[String]) -> String {
         lost, crate::jlist(&after_first.iter().map(|s| s.as_str()).collect::<Vec<_>>()), crate::jlist(&after_second.iter().map(|s| s.as_str()).collect::<Vec<_>>()))
 }
 
+/// Finding C19 clipped frame: a frame cut at the terminal height ends without the filler that parks the cursor at
+/// the end of the row; once all painted rows are handed over (their bars finished and dropped) the next frame is
+/// written right behind the last painted line.
+pub fn clip_hazard(_args: &[String]) -> String {
+    let term = InMemoryTerm::new(3, 20);
+    let mp = MultiProgress::with_draw_target(ProgressDrawTarget::term_like(Box::new(term.clone())));
+    let mk = |n: &str| { let pb = mp.add(ProgressBar::new(10)); pb.set_style(ProgressStyle::with_template(&format!("{} {{pos}}/{{len}}", n)).unwrap()); pb };
+    let (a, b, c, d) = (mk("a"), mk("b"), mk("c"), mk("d"));
+    a.tick(); b.tick(); c.tick(); d.tick();
+    a.finish(); b.finish(); c.finish();
+    drop(a); drop(b); drop(c);
+    d.inc(1);
+    let scr = lines_of(&term);
+    // expected: the finished bars keep their rows and d appears on a row of its own
+    let glued = scr.iter().any(|l| l.contains("c 10/10") && l.trim_end() != "c 10/10");
+    format!("{{\"found\": {}, \"clause\": \"C19-clipped-frame-cursor-rest (C04, C02, C01): after a frame cut at the terminal height the next frame starts right behind the last painted line\", \"input\": {{\"history\": \"3x20 terminal; bars a b c d (d does not fit); tick all; finish a b c; drop a b c; d.inc(1)\", \"screen\": {}}}, \"rerun\": \"replay clip_hazard\"}}",
+        glued, crate::jlist(&scr.iter().map(|s| s.as_str()).collect::<Vec<_>>()))
+}
+
 /// Finding C03 frame in cursor-moving mode: with move_cursor enabled and no bar rows painted yet,
 /// the carriage return at the start of a draw lands on the previous log line.
 pub fn cr_hazard(_args: &[String]) -> String {
